@@ -60,6 +60,7 @@ class RunHandle:
         self.input_kwargs = input_kwargs
         self.input_kwargs_before = input_kwargs_before
         self.done_iter = None
+        self.cancel_accepted = None
 
     @property
     def outcome(self):
@@ -145,7 +146,11 @@ class Session:
         return h
 
     def cancel_at(self, handle, iteration):
-        self.loop.at_iter[iteration] = handle.task.cancel
+        def inject():
+            # True: the task was not done yet, so CancelledError is thrown into chart.run at its next step
+            handle.cancel_accepted = handle.task.cancel()
+
+        self.loop.at_iter[iteration] = inject
 
     def drive(self):
         asyncio.set_event_loop(None)
